@@ -327,7 +327,7 @@ func c03TBSClass(f *c03Fields) string {
 			return "an empty group string"
 		}
 	}
-	return "an ordinary-looking TBS (see detail)"
+	return "neither an empty/over-long name nor an empty group (see detail)"
 }
 
 func c03SameMultiset(a, b []netip.Prefix) bool {
